@@ -327,4 +327,130 @@ theorem glueD (c : List Nat) (e : Nat) (neg : Bool) (stop start : Nat) (fo : Boo
     exact glueD_exp c e neg stop start fo dotOff K k1 kt R n f m es ks he hK hk1 hKd hn hn19 hR hur hm hmE hes hks hk0 hu
       (by omega) hep hen hbound htr
 
+/-- integer regime: every continuation after the kept digits `K` (19 or 20): ignored integer digits `R`, an optional
+late dot with fraction digits `F` (all dropped), an optional exponent -/
+theorem glueI (c : List Nat) (e : Nat) (neg : Bool) (stop start : Nat)
+    (K : List Nat) (k1 : Nat) (kt R F DF EP es ks : List Nat) (n : Nat) (he : e ≤ 99999000)
+    (hK : K = k1 :: kt) (hk1 : isNonZeroDigit k1 = true) (hKd : AllDigits K) (hn : K.length = n) (hn19 : 19 ≤ n)
+    (hn20 : n ≤ 20) (hv64 : decVal K < 2 ^ 64) (hstop0 : stop ≠ 0)
+    (hR : AllDigits R) (hF : AllDigits F) (hur : unitsAt c e stop R)
+    (hDF : (DF = [] ∧ F = []) ∨ (DF = 46 :: F ∧ F ≠ [])) (hDFu : unitsAt c e (stop + R.length) DF)
+    (hEP : ExpPart EP es ks) (hEPu : unitsAt c e (stop + R.length + DF.length) EP)
+    (hQ : stop + R.length + DF.length + EP.length = e)
+    (hne : R ≠ [] ∨ DF ≠ [] ∨ EP ≠ [])
+    (hep : sub32 (sub32 stop start) (b2n (!false && false)) = n) :
+    Good neg (valFrac (decVal (K ++ R ++ F)) (decVal ks) (decide (es = [45])) F.length).1
+      (valFrac (decVal (K ++ R ++ F)) (decVal ks) (decide (es = [45])) F.length).2 e
+      (finishReal c e neg (decVal K) stop stop start false false 0) := by
+  have he32 : e < 2 ^ 32 - 100000000 := by omega
+  obtain ⟨hlo, hhi, hv0⟩ := decVal_bounds K k1 kt hK hk1 hKd
+  rw [hn] at hlo hhi
+  have hdr := digitsOn_of_unitsAt c e R stop hR hur
+  have hcore : ∀ k kneg, k < 100000000 →
+      Good neg (valFrac (decVal (K ++ R ++ F)) k kneg F.length).1 (valFrac (decVal (K ++ R ++ F)) k kneg F.length).2 e
+        (realResult neg (decVal K) n (intExp k kneg R.length).1 (intExp k kneg R.length).2 e) := by
+    intro k kneg hk
+    have hlenR : R.length ≤ e := by omega
+    have hX : (intExp k kneg R.length).1 < 2 ^ 31 := by
+      cases kneg with
+      | false => simp [intExp]; omega
+      | true =>
+        simp only [intExp, Bool.not_true, Bool.false_eq_true, if_false]
+        split <;> simp <;> omega
+    exact glueI_core neg K R F k1 kt n k kneg e hK hk1 hKd hn hn19 hn20 hv64 hR hF hX
+  -- out of range for a saturated exponent
+  have hsat : ∀ k kneg, 100000000 ≤ k →
+      (valFrac (decVal (K ++ R ++ F)) k kneg F.length).1 * 2 ^ 1074 < (valFrac (decVal (K ++ R ++ F)) k kneg F.length).2 ∨
+      (2 ^ 53 - 1) * 2 ^ 971 * (valFrac (decVal (K ++ R ++ F)) k kneg F.length).2 <
+        (valFrac (decVal (K ++ R ++ F)) k kneg F.length).1 := by
+    intro k kneg hk
+    have hRF : AllDigits (R ++ F) := by
+      intro y hy
+      rcases List.mem_append.1 hy with h | h
+      · exact hR y h
+      · exact hF y h
+    obtain ⟨t1, t2⟩ := decVal_trunc K (R ++ F) hRF
+    rw [← List.append_assoc, List.length_append] at t1 t2
+    have hvlo : 10 ^ (n + R.length - 1 + F.length) ≤ decVal (K ++ R ++ F) := by
+      have e1 : n + R.length - 1 + F.length = (n - 1) + (R.length + F.length) := by omega
+      rw [e1, Nat.pow_add]
+      exact Nat.le_trans (Nat.mul_le_mul_right _ hlo) t1
+    have hvhi : decVal (K ++ R ++ F) < 10 ^ (n + R.length + F.length) := by
+      have e1 : n + R.length + F.length = n + (R.length + F.length) := by omega
+      rw [e1, Nat.pow_add]
+      exact Nat.lt_of_lt_of_le t2 (Nat.mul_le_mul_right _ (by omega))
+    have := valFrac_out_of_range (decVal (K ++ R ++ F)) k kneg (n + R.length) F.length 0 hvlo hvhi (by omega) hk (by omega)
+    simpa using this
+  rcases hDF with ⟨rfl, rfl⟩ | ⟨rfl, hF0⟩
+  · -- no dot
+    simp only [List.length_nil, Nat.add_zero, List.append_nil] at hEPu hQ hcore hsat ⊢
+    rcases hEP with ⟨rfl, rfl, rfl⟩ | ⟨m, hmE, rfl, hes, hks, hk0⟩
+    · have hRne : R ≠ [] := by
+        rcases hne with h | h | h
+        · exact h
+        · exact absurd rfl h
+        · exact absurd rfl h
+      have hRl : 0 < R.length := by
+        cases R with
+        | nil => exact absurd rfl hRne
+        | cons a b => simp
+      simp only [List.length_nil, Nat.add_zero] at hQ
+      rw [hQ] at hdr
+      rw [finishReal_end_ignored c e neg _ stop stop start 0 e hdr (by omega) (Nat.le_refl _) (by omega) (Or.inl rfl) n hep]
+      have := hcore 0 false (by decide)
+      have hie : intExp 0 false R.length = (R.length, false) := by simp [intExp]
+      rw [hie] at this
+      rw [show e - stop = R.length by omega]
+      simpa [decVal] using this
+    · have hm : rd c e (stop + R.length) = some m := hEPu.1
+      have hu : unitsAt c e (stop + R.length + 1) (es ++ ks) := hEPu.2
+      simp only [List.length_cons, List.length_append] at hQ
+      have hend : endsAt c e (stop + R.length + 1 + es.length + ks.length) isDigit := Or.inl (by omega)
+      rcases Nat.lt_or_ge (decVal ks) 100000000 with hsmall | hbig
+      · rw [finishReal_int_exp c e neg _ stop stop start 0 (stop + R.length) m es ks hdr (by omega) (by omega) hm hmE he32
+          hes hks hk0 hu hend hsmall n hep]
+        rw [show stop + R.length + 1 + es.length + ks.length = e by omega, show stop + R.length - stop = R.length by omega]
+        exact hcore _ _ hsmall
+      · rw [finishReal_exp_sat c e neg _ stop stop start false false 0 (stop + R.length) m es ks hdr (by omega) hm hmE
+          hes hks hk0 hu hend (by omega) hbig]
+        rw [show stop + R.length + 1 + es.length + ks.length = e by omega]
+        exact ⟨_, rfl, rfl, Or.inl ⟨rfl, hsat _ _ hbig⟩⟩
+  · -- a late dot
+    have hdot : rd c e (stop + R.length) = some 46 := hDFu.1
+    have hFu : unitsAt c e (stop + R.length + 1) F := hDFu.2
+    have hdr2 := digitsOn_of_unitsAt c e F _ hF hFu
+    have hFl : 0 < F.length := by
+      cases F with
+      | nil => exact absurd rfl hF0
+      | cons a b => simp
+    simp only [List.length_cons] at hEPu hQ
+    rcases hEP with ⟨rfl, rfl, rfl⟩ | ⟨m, hmE, rfl, hes, hks, hk0⟩
+    · simp only [List.length_nil, Nat.add_zero] at hQ
+      rw [finishReal_int_dot_end c e neg _ stop stop start 0 (stop + R.length) e hdr (by omega) (by omega) hdot
+        (by have := hdr2; rwa [show stop + R.length + 1 + F.length = e by omega] at this) (by omega) (Nat.le_refl _) he32
+        (Or.inl rfl) n hep]
+      have := hcore 0 false (by decide)
+      have hie : intExp 0 false R.length = (R.length, false) := by simp [intExp]
+      rw [hie] at this
+      rw [show stop + R.length - stop = R.length by omega]
+      simpa [decVal] using this
+    · have hm : rd c e (stop + R.length + 1 + F.length) = some m := by
+        have := hEPu.1
+        rw [show stop + R.length + (F.length + 1) = stop + R.length + 1 + F.length by omega] at this; exact this
+      have hu : unitsAt c e (stop + R.length + 1 + F.length + 1) (es ++ ks) := by
+        have := hEPu.2
+        rw [show stop + R.length + (F.length + 1) + 1 = stop + R.length + 1 + F.length + 1 by omega] at this; exact this
+      simp only [List.length_cons, List.length_append] at hQ
+      have hend : endsAt c e (stop + R.length + 1 + F.length + 1 + es.length + ks.length) isDigit := Or.inl (by omega)
+      rcases Nat.lt_or_ge (decVal ks) 100000000 with hsmall | hbig
+      · rw [finishReal_int_dot_exp c e neg _ stop stop start 0 (stop + R.length) (stop + R.length + 1 + F.length) m es ks
+          hdr (by omega) (by omega) hdot hdr2 (by omega) hm hmE he32 hes hks hk0 hu hend hsmall n hep]
+        rw [show stop + R.length + 1 + F.length + 1 + es.length + ks.length = e by omega,
+          show stop + R.length - stop = R.length by omega]
+        exact hcore _ _ hsmall
+      · rw [finishReal_int_dot_exp_sat c e neg _ stop stop start 0 (stop + R.length) (stop + R.length + 1 + F.length) m es ks
+          hdr (by omega) hdot hdr2 (by omega) hm hmE hes hks hk0 hu hend (by omega) hbig]
+        rw [show stop + R.length + 1 + F.length + 1 + es.length + ks.length = e by omega]
+        exact ⟨_, rfl, rfl, Or.inl ⟨rfl, hsat _ _ hbig⟩⟩
+
 end Qentem.StrToNum
